@@ -32,7 +32,7 @@ def run_one(args):
     impl = lib.read_lines(hout)
     res = {"inst": inst, "k": k, "hstatus": st, "impl": impl, "status": "OK" if "mcf OK" in impl else "NOANSWER",
            "js": None, "chk": [], "dstatus": "OK", "flow": {}, "netdiff": None, "indep": None, "coupled": False,
-           "tours_match": True}
+           "tours_match": True, "slotdiff": None}
     if st != "OK" or "mcf OK" not in impl:
         if "mcf PANIC" in impl:
             res["status"] = "PANIC"
@@ -63,6 +63,16 @@ def run_one(args):
         elif p[0] == "FTOUR":
             ftours[cur].append(" ".join(p[1:]))
     ie.sort()
+    # the slot distribution is a function of the model (SlotDist.v, f32 arithmetic of F32.v): exact comparison
+    mslots = {}
+    for l in out:
+        p = l.split()
+        if p[0] == "MSLOT":
+            mslots.setdefault(p[1], {})[p[2]] = int(p[3])
+    if "MSLOTS OK" not in out:
+        res["slotdiff"] = "the modelled distribution panics, the code's does not"
+    elif {t: v for t, v in mslots.items() if v} != {t: v for t, v in slots.items() if v}:
+        res["slotdiff"] = "model %s impl %s" % (json.dumps(mslots, sort_keys=True)[:300], json.dumps(slots, sort_keys=True)[:300])
     if me != ie:
         a = [x for x in me if x not in ie][:3]
         b = [x for x in ie if x not in me][:3]
@@ -133,6 +143,8 @@ def failures(pid, inst, r):
         return [("checker-crash", r["dstatus"][:300])]
     if r["netdiff"]:
         bad.append(("flow-network-differs-from-model", r["netdiff"]))
+    if r.get("slotdiff"):
+        bad.append(("slot-distribution-differs-from-model", r["slotdiff"]))
     if r.get("slot_over"):
         bad.append(("slots-allotted-beyond-tracks", "; ".join(r["slot_over"])))
     for ty, kv in r["flow"].items():
